@@ -65,3 +65,103 @@ package types
 //@ callsite verifyMerkleProof [bound-to-contract-slot-value-root] bscProof == callres("produceVerificationArgs", 0) && consensusState == callres("produceVerificationArgs", 1) && contractAddr == m.ContractAddress && commitment == ackBytes && proofKey == NewProofKeyConstructor(srcChain, dstChain, sequence).GetAckProofKey()
 //@ ensures [guards] result == nil ==> ncalls("produceVerificationArgs") == 1 && callsok("produceVerificationArgs") && ncalls("verifyMerkleProof") == 1 && callsok("verifyMerkleProof")
 //@ ensures [confirmations] result == nil ==> height.GetRevisionHeight() <= m.Header.Height.RevisionHeight && m.Header.Height.RevisionHeight - height.GetRevisionHeight() >= m.GetDelayBlock()
+
+// ======================= C09: the BSC client accepts only the next block sealed by an eligible validator ===========
+// verif:import params github.com/ethereum/go-ethereum/params
+
+// structure: vanity + seal present, zero mix digest, no uncles
+// verif:func (Header).ValidateBasic
+//@ ensures [structure] result == nil ==> len(h.Extra) >= 97 && common.BytesToHash(h.MixDigest) == common.Hash{} && common.BytesToHash(h.UncleHash) == uncleHash
+
+// extra data carries a validator list exactly on epoch blocks; then the cascading checks
+// verif:func verifyHeader
+//@ ensures [extra-data] result == nil ==> len(header.Extra) >= 97 && (header.Height.RevisionHeight % clientState.Epoch != 0 ==> len(header.Extra) == 97) && (header.Height.RevisionHeight % clientState.Epoch == 0 ==> (len(header.Extra) - 97) % 20 == 0)
+//@ ensures [cascading] result == nil ==> ncalls("ValidateBasic") == 1 && callsok("ValidateBasic") && ncalls("verifyCascadingFields") == 1 && callsok("verifyCascadingFields")
+//@ callsite verifyCascadingFields [same-header] dollar_header == header && dollar_clientState == clientState && dollar_store == store
+
+// direct child of the current head, gas bounds, then the seal
+// verif:func verifyCascadingFields
+//@ ensures [direct-child] result == nil ==> clientState.Header.Height.RevisionHeight == header.Height.RevisionHeight - 1 && clientState.Header.Hash() == common.BytesToHash(header.ParentHash)
+//@ ensures [gas] result == nil ==> header.GasLimit <= 0x7fffffffffffffff && header.GasUsed <= header.GasLimit && header.GasLimit >= params.MinGasLimit
+//@ ensures [seal] result == nil ==> ncalls("verifySeal") == 1 && callsok("verifySeal")
+//@ callsite verifySeal [same-header] dollar_header == header && dollar_clientState == clientState && dollar_store == store
+
+// sealed by its coinbase, which is a current validator, has not signed inside the recent window, and used the
+// difficulty of its turn
+// verif:func verifySeal
+//@ modifies store
+//@ loop 1 invariant forall n uint64 :: visited(n) ==> !(snap.Recents[n] == signer && n > number - uint64(len(snap.Validators)/2+1))
+//@ callsite ecrecover [this-header-this-chain] dollar_header == header && *chainId == sint(int64(clientState.ChainId))
+//@ callsite snapshot [of-this-client] m == *clientState && dollar_store == store
+//@ callsite SetSigner [records-this-seal] dollar_signer.Height == header.Height && dollar_signer.Validator == callres("ecrecover", 0).Bytes() && dollar_store == store
+//@ ensures [sealed-by-coinbase] result == nil ==> ncalls("ecrecover") == 1 && callsok("ecrecover") && callres("ecrecover", 0) == common.BytesToAddress(header.Coinbase)
+//@ ensures [authorised] result == nil ==> ncalls("snapshot") == 1 && callsok("snapshot") && mapHas(callres("snapshot", 0).Validators, callres("ecrecover", 0))
+//@ ensures [not-recent] result == nil ==> forall n uint64 :: mapHas(callres("snapshot", 0).Recents, n) && callres("snapshot", 0).Recents[n] == callres("ecrecover", 0) ==> n <= header.Height.RevisionHeight - uint64(len(callres("snapshot", 0).Validators)/2+1)
+//@ ensures [difficulty-of-the-turn] result == nil ==> ncalls("inturn") == 1 && (callres("inturn", 0) ==> header.ToBscHeader().Difficulty.Cmp(diffInTurn) == 0) && (!callres("inturn", 0) ==> header.ToBscHeader().Difficulty.Cmp(diffNoTurn) == 0)
+//@ ensures [seal-recorded] result == nil ==> ncalls("SetSigner") == 1
+
+// the snapshot is the client's own validator list, head number and stored recent signers
+// verif:func (ClientState).snapshot
+//@ ensures [number] result1 == nil ==> result0.Number == m.Header.Height.RevisionHeight
+//@ loop 1 invariant forall a common.Address :: mapHas(snap.Validators, a) ==> exists j int :: 0 <= j && j < idx1 && a == common.BytesToAddress(m.Validators[j])
+//@ ensures [only-the-client-validators] result1 == nil ==> forall a common.Address :: mapHas(result0.Validators, a) ==> exists j int :: 0 <= j && j < len(m.Validators) && a == common.BytesToAddress(m.Validators[j])
+
+// recent-signer records: one entry per sealed height
+// verif:func SetSigner
+//@ modifies store
+//@ ensures [recorded] kvget(store, keyRecentSinger(signer)) == signer.Validator
+// verif:func DeleteSigner
+//@ modifies store
+
+// the pending validator list (set at an epoch block, read at the switch offset)
+// verif:func SetPendingValidators
+//@ modifies store
+//@ ensures [stored] GetPendingValidators(cdc, store).Validators == validators
+
+// keccak256 of the RLP encoding / signature recovery over the seal hash: assumed deterministic functions (crypto, RLP)
+// verif:func rlpHash
+//@ pure
+// verif:func ecrecover
+//@ pure
+
+// the ascending list of the validator set (map range + sort.Sort: assumed)
+// verif:func (*snapshot).validators
+//@ trusted
+//@ ensures [members] forall a common.Address :: mapHas(s.Validators, a) <==> exists i int :: 0 <= i && i < len(result) && result[i] == a
+//@ ensures [nonempty-iff] len(result) == 0 <==> !(exists a common.Address :: mapHas(s.Validators, a))
+
+// in turn: the validator at position (head+1) mod N of the ascending list
+// verif:func (*snapshot).inturn
+//@ ensures [position] result == (callres("validators", 0)[(s.Number + 1) % uint64(len(callres("validators", 0)))] == validator)
+
+// the validator list carried by an epoch header: one 20-byte address per entry between vanity and seal
+// verif:func ParseValidators
+//@ ensures [count] result1 == nil ==> (len(extra) - 97) % 20 == 0 && len(result0) == (len(extra) - 97) / 20
+
+// accepted header: becomes the head; its (time, height, root) is the consensus state; an epoch header's validator
+// list becomes pending; the validator set changes only to the pending list and only at offset len(V)/2 after the epoch
+// verif:func update
+//@ modifies store
+//@ modifies *clientState
+//@ callsite SetPendingValidators [list-of-this-epoch-header] header.Height.RevisionHeight % clientState.Epoch == 0 && validators == callres("ParseValidators", 0) && callsok("ParseValidators") && dollar_store == store
+//@ callsite ParseValidators [from-this-header] extra == header.Extra
+//@ ensures [consensus-state] result2 == nil ==> result1.Timestamp == header.Time && result1.Height == header.Height && result1.Root == header.Root
+//@ ensures [head] result2 == nil ==> result0.Header == *header
+//@ ensures [epoch-list-becomes-pending] result2 == nil && header.Height.RevisionHeight % old(clientState.Epoch) == 0 ==> ncalls("SetPendingValidators") == 1
+//@ ensures [switch-only-at-offset] result2 == nil && header.Height.RevisionHeight % old(clientState.Epoch) != uint64(len(old(clientState.Validators))/2) ==> result0.Validators == old(clientState.Validators)
+//@ ensures [switch-to-pending] result2 == nil && header.Height.RevisionHeight % old(clientState.Epoch) == uint64(len(old(clientState.Validators))/2) && header.Height.RevisionHeight % old(clientState.Epoch) != 0 ==> result0.Validators == old(GetPendingValidators(cdc, store).Validators)
+//@ ensures [switch-to-own-list] result2 == nil && header.Height.RevisionHeight % old(clientState.Epoch) == uint64(len(old(clientState.Validators))/2) && header.Height.RevisionHeight % old(clientState.Epoch) == 0 ==> result0.Validators == callres("ParseValidators", 0)
+//@ ensures [parameters-kept] result2 == nil ==> result0.Epoch == old(clientState.Epoch) && result0.ChainId == old(clientState.ChainId) && result0.ContractAddress == old(clientState.ContractAddress) && result0.TrustingPeriod == old(clientState.TrustingPeriod)
+
+// verif:func checkValidity
+//@ modifies store
+//@ ensures [validated] result == nil ==> ncalls("verifyHeader") == 1 && callsok("verifyHeader")
+//@ callsite verifyHeader [same-header] dollar_header == header && dollar_clientState == clientState && dollar_store == store
+
+// the header is validated against the client's own current state; nothing is returned unless validation passed
+// verif:func (ClientState).CheckHeaderAndUpdateState
+//@ modifies store
+//@ callsite checkValidity [own-state-this-header] *clientState == m && dollar_header == *as(header, *Header) && dollar_store == store
+//@ callsite update [own-state-this-header] dollar_header == as(header, *Header) && dollar_store == store
+//@ ensures [validated] result2 == nil ==> ncalls("checkValidity") == 1 && callsok("checkValidity") && ncalls("update") == 1 && callsok("update")
+//@ ensures [returns-update] result2 == nil ==> as(result0, *ClientState) == callres("update", 0) && as(result1, *ConsensusState) == callres("update", 1)
